@@ -446,7 +446,7 @@ def gen_lifecycle(rng):
 def gen_focus(rng, kind):
     """Programs that use one primitive intensively: main spawns every other body first (body j becomes task j), then all
     bodies run 3-8 operations drawn from the primitive's own vocabulary, then main joins some of its children.
-    kinds: park, condvar, barrier, mutex, rwlock, sem, atomic, chan."""
+    kinds: park, condvar, barrier, mutex, rwlock, sem, acq, atomic, chan."""
     nb = rng.randint(2, 4)
     head = ["sp%d" % j for j in range(1, nb)]
     tail = ["jn%d" % h for h in range(nb - 1) if rng.random() < 0.6]
@@ -558,6 +558,60 @@ def gen_focus(rng, kind):
                 else:
                     ops.append("yd")
             bodies.append(ops)
+    elif kind == "acq":
+        # Acquire futures handled by hand: slots 0,1 are created by main before the spawns, polled by any task (hand-over
+        # between tasks) and dropped by main after the joins; slots 2,3 are main's own (created, polled and dropped at
+        # arbitrary points: cancellation in front of blocked acquirers)
+        objs = "a0,q,s%d:%s" % (rng.choice([0, 1, 1, 2]), rng.choice("ffu"))
+        pre = []
+        for sl in (0, 1):
+            if rng.random() < 0.8:
+                pre.append("qn1.%d.2.%d" % (sl, rng.choice([1, 1, 2, 3])))
+        shared = [int(x.split(".")[1]) for x in pre]
+        if rng.random() < 0.5 and shared:
+            pre.append("qp1.%d.2" % rng.choice(shared))
+        tail = ["jn%d" % h for h in range(nb - 1)]
+        # a future is polled by one task at a time: main before the spawns, then one designated child, then main after the joins
+        owner = {sl: rng.randrange(1, nb) for sl in shared}
+        polled = {}
+        for b in range(nb):
+            ops = []
+            own = {}      # main's own slots: number of polls so far
+            mine = [sl for sl in shared if owner[sl] == b]
+            for _ in range(rng.randint(2, 7)):
+                r = rng.random()
+                if r < 0.3 and mine:
+                    sl = rng.choice(mine)
+                    if polled.get(sl, 0) < 2:
+                        polled[sl] = polled.get(sl, 0) + 1
+                        ops.append("qp1.%d.2" % sl)
+                    else:
+                        ops.append("yd")
+                elif r < 0.5 and b == 0:
+                    sl = rng.choice((2, 3))
+                    if sl not in own:
+                        ops.append("qn1.%d.2.%d" % (sl, rng.choice([1, 2, 2, 3])))
+                        own[sl] = 0
+                    elif own[sl] < 2 and rng.random() < 0.6:
+                        ops.append("qp1.%d.2" % sl)
+                        own[sl] += 1
+                    else:
+                        ops.append("qd1.%d.2" % sl)
+                        del own[sl]
+                elif r < 0.62:
+                    ops.append("sa2.%d" % rng.choice([1, 1, 2]))
+                elif r < 0.7:
+                    ops.append("st2.%d" % rng.choice([1, 2]))
+                elif r < 0.9:
+                    ops.append("sr2.%d" % rng.choice([1, 1, 2]))
+                else:
+                    ops.append("yd")
+            if b == 0:
+                ops += ["qd1.%d.2" % sl for sl in own]
+            bodies.append(ops)
+        tail = tail + ["qp1.%d.2" % sl for sl in shared if rng.random() < 0.5]
+        head = pre + head
+        tail = tail + ["qd1.%d.2" % sl for sl in shared]
     elif kind == "atomic":
         objs = "a%d,a%d" % (rng.choice([0, 1, 5]), rng.choice([0, 2 ** 64 - 1]))
         for b in range(nb):
